@@ -50,11 +50,14 @@ def run(prop, tier):
                 return h, "discharged", re.findall(r"Verification Time: [0-9.]+s", txt)[-1:] , time.time() - t0, " ".join(cmd)
             if "VERIFICATION:- FAILED" in txt:
                 fails = re.findall(r"Check \d+: .*?\n\t - Status: FAILURE\n\t - Description: \"(.*?)\"", txt)
+                if not fails or "out of memory" in txt or "CBMC failed" in txt:
+                    # resource exhaustion / tool failure: no failed check was reported -> undecided, never an alarm
+                    return h, "undecided", "CBMC did not complete (no failed check reported): " + txt[-300:], time.time() - t0, " ".join(cmd)
                 return h, "failed", fails[:5], time.time() - t0, " ".join(cmd)
             return h, "undecided", txt[-600:], time.time() - t0, " ".join(cmd)
         first = one(cfg["harnesses"][0])
         res = [first]
-        with cf.ThreadPoolExecutor(max_workers=6) as ex:
+        with cf.ThreadPoolExecutor(max_workers=3) as ex:   # each CBMC run peaks at 10-15 GB
             res += list(ex.map(one, cfg["harnesses"][1:]))
         for h, verdict, detail, wall, cmd in res:
             out["cmds"].append(cmd)
